@@ -63,6 +63,9 @@ type Term struct {
 	// single-variable analysis cache: 0 unknown, 1 no vars, 2 exactly one var (onlyVar), 3 several / UF
 	varState uint8
 	onlyVar  *Term
+	// interval cache (ranges.go)
+	rlo, rhi uint64
+	rEpoch   int
 }
 
 // soleVar returns the only variable t depends on (nil if none, several, or a UF occurs).
@@ -113,6 +116,9 @@ type TermStore struct {
 	False  *Term
 	// uninterpreted function signatures: name -> (arg widths, result width)
 	ufs map[string][]int
+	// variable ranges assumed at creation (ranges.go)
+	varRange   map[*Term]rng
+	rangeEpoch int
 }
 
 func NewTermStore() *TermStore {
@@ -503,6 +509,18 @@ func (s *TermStore) Bin(op Op, a, b *Term) *Term {
 		if b.IsConst() && b.val == 0 {
 			return a
 		}
+	case OpUDiv, OpURem:
+		if b.IsConst() && s.varRange != nil {
+			if r := s.divByConst(op == OpURem, a, b.val); r != nil {
+				return r
+			}
+		}
+	case OpSDiv, OpSRem:
+		if b.IsConst() && s.varRange != nil && b.val < uint64(1)<<uint(w-1) && s.Range(a).hi < uint64(1)<<uint(w-1) {
+			if r := s.divByConst(op == OpSRem, a, b.val); r != nil {
+				return r
+			}
+		}
 	}
 	// push ops through ite with constant arms when other side const (keeps things foldable)
 	if b.IsConst() && a.op == OpIte && a.args[1].IsConst() && a.args[2].IsConst() {
@@ -531,6 +549,11 @@ func (s *TermStore) Cmp(op Op, a, b *Term) *Term {
 	}
 	if a == b {
 		return s.Bool(op == OpULe || op == OpSLe)
+	}
+	if s.varRange != nil {
+		if v, ok := s.cmpByRange(op, a, b); ok {
+			return s.Bool(v)
+		}
 	}
 	if b.IsConst() && a.op == OpIte && a.args[1].IsConst() && a.args[2].IsConst() {
 		return s.Ite(a.args[0], s.Cmp(op, a.args[1], b), s.Cmp(op, a.args[2], b))
